@@ -3,26 +3,36 @@
 #   seeded/<id>[_rN]/patch.diff      must be DETECTED by ./check <id> (exit 1 with a VIOLATION line)
 #   mutants/benign/<name>.diff       must stay QUIET for the checks listed in mutants/benign/CHECKS
 # Every run works on a scratch worktree of /repo HEAD (VERIF_REPO); /repo and the committed evidence are not touched.
-# usage: tools/selftest.sh [pattern]      (pattern filters seed directory names, e.g. C1 or _r3)
+# usage: tools/selftest.sh [pattern] [jobs]   (pattern filters seed directory names, e.g. C1 or _r3, "" for all;
+#                                              jobs = how many checks run side by side, default 3)
 cd "$(dirname "$0")/.."
 pat="${1:-}"
-for d in seeded/*/; do
-  name=$(basename "$d")
-  case "$name" in *"$pat"*) ;; *) continue;; esac
-  id=$(echo "$name" | cut -d_ -f1)
+jobs="${2:-3}"
+one_seed() {
+  d="$1"; name=$(basename "$d"); id=$(echo "$name" | cut -d_ -f1)
   out=$(tools/with_patch.sh "$d/patch.diff" ./check "$id" --tier quick 2>&1)
   if echo "$out" | grep -q "^VIOLATION property=$id"; then echo "seed $name: detected"
   elif echo "$out" | grep -q "machinery failure"; then echo "seed $name: MACHINERY FAILURE"
   else echo "seed $name: MISSED"; fi
-done
-if [ -z "$pat" ] || [ "$pat" = "benign" ]; then
-  while read -r name checks; do
-    [ -z "$name" ] && continue
-    for id in $checks; do
-      out=$(tools/with_patch.sh "mutants/benign/$name.diff" ./check "$id" --tier quick 2>&1)
-      if echo "$out" | grep -q "^VIOLATION"; then echo "benign $name on $id: ALARM"
-      elif echo "$out" | grep -q "machinery failure"; then echo "benign $name on $id: MACHINERY FAILURE"
-      else echo "benign $name on $id: quiet"; fi
-    done
-  done < mutants/benign/CHECKS
-fi
+}
+one_benign() {
+  name="$1"; id="$2"
+  out=$(tools/with_patch.sh "mutants/benign/$name.diff" ./check "$id" --tier quick 2>&1)
+  if echo "$out" | grep -q "^VIOLATION"; then echo "benign $name on $id: ALARM"
+  elif echo "$out" | grep -q "machinery failure"; then echo "benign $name on $id: MACHINERY FAILURE"
+  else echo "benign $name on $id: quiet"; fi
+}
+if [ "$1" = "--one-seed" ]; then one_seed "$2"; exit 0; fi
+if [ "$1" = "--one-benign" ]; then one_benign "$2" "$3"; exit 0; fi
+{
+  for d in seeded/*/; do
+    name=$(basename "$d")
+    case "$name" in *"$pat"*) echo "--one-seed $d";; esac
+  done
+  if [ -z "$pat" ] || [ "$pat" = "benign" ]; then
+    while read -r name checks; do
+      [ -z "$name" ] && continue
+      for id in $checks; do echo "--one-benign $name $id"; done
+    done < mutants/benign/CHECKS
+  fi
+} | xargs -P "$jobs" -L 1 tools/selftest.sh
